@@ -177,6 +177,22 @@ func cloneWith(v interface{}, leaf func(interface{}) interface{}) interface{} {
 }
 
 // SortedKeys returns the keys of m in ascending byte order.
+// Nodes counts the containers and leaves of a document.
+func Nodes(v interface{}) int {
+	n := 1
+	switch t := v.(type) {
+	case map[string]interface{}:
+		for _, x := range t {
+			n += Nodes(x)
+		}
+	case []interface{}:
+		for _, x := range t {
+			n += Nodes(x)
+		}
+	}
+	return n
+}
+
 func SortedKeys(m map[string]interface{}) []string {
 	ks := make([]string, 0, len(m))
 	for k := range m {
@@ -256,6 +272,44 @@ func WideDocs() []interface{} {
 		[]interface{}{map[string]interface{}{"a": leaf(), "b": leaf()}, map[string]interface{}{"a": leaf(), "b": leaf()}, map[string]interface{}{"b": leaf()}},
 		map[string]interface{}{"a": map[string]interface{}{"a": leaf(), "b": leaf(), "c": leaf()}, "b": map[string]interface{}{"a": leaf(), "b": leaf(), "c": leaf()}, "c": map[string]interface{}{"a": leaf(), "b": leaf()}},
 	)
+	// arrays nested directly in arrays below another container, objects at the bottom
+	out = append(out,
+		map[string]interface{}{"a": []interface{}{[]interface{}{map[string]interface{}{"a": 1.0}}}},
+		[]interface{}{[]interface{}{[]interface{}{map[string]interface{}{"a": 1.0}, map[string]interface{}{"b": 2.0}}}},
+		map[string]interface{}{"b": map[string]interface{}{"a": []interface{}{[]interface{}{map[string]interface{}{"a": 2.0}}, map[string]interface{}{"a": 3.0}}}},
+	)
+	// arrays of longer arrays: inner index lists longer than the outer one
+	nums := func(xs ...float64) []interface{} {
+		var o []interface{}
+		for _, x := range xs {
+			o = append(o, x)
+		}
+		return o
+	}
+	out = append(out,
+		[]interface{}{nums(1, 2, 3), nums(4, 5, 6)},
+		[]interface{}{nums(1, 2), nums(3, 4, 5)},
+		[]interface{}{nums(1, 2, 3, 4), nums(5)},
+		[]interface{}{[]interface{}{nums(1, 2, 3)}, []interface{}{nums(4, 5, 6), nums(7, 8, 9)}},
+		map[string]interface{}{"a": []interface{}{nums(1, 2, 3), nums(4, 5, 6)}, "b": nums(7, 8)},
+	)
+	// two-member arrays at the root whose members hit / miss / mistype .a and .a.b at different depths
+	rootKinds := []func() interface{}{
+		func() interface{} { return 7.0 },
+		func() interface{} { return map[string]interface{}{"b": 1.0} },
+		func() interface{} { return map[string]interface{}{"a": 1.0} },
+		func() interface{} { return map[string]interface{}{"a": nil} },
+		func() interface{} { return map[string]interface{}{"a": map[string]interface{}{"c": 2.0}} },
+		func() interface{} { return map[string]interface{}{"a": map[string]interface{}{"b": 3.0}} },
+		func() interface{} { return map[string]interface{}{"a": []interface{}{1.0}} },
+		func() interface{} { return []interface{}{map[string]interface{}{"a": 1.0}} },
+	}
+	for _, k1 := range rootKinds {
+		for _, k2 := range rootKinds {
+			out = append(out, []interface{}{k1(), k2()})
+		}
+	}
+	out = append(out, []interface{}{rootKinds[4](), rootKinds[1](), rootKinds[2]()}, []interface{}{rootKinds[5](), rootKinds[0](), rootKinds[4]()})
 	// documents built in Go in which one container is referenced from several places (a decoder
 	// never produces these; the properties speak about values, so sharing must not matter)
 	sharedMap := map[string]interface{}{"a": 1.0, "b": 2.0}
